@@ -234,7 +234,7 @@ func c20JSON(r *Run) {
 	}
 	all := append(allWireTypes(), extra...)
 	for _, tt := range all {
-		if needsState[tt.name] || strings.Contains(tt.name, "rhp/v2.RPC") || strings.Contains(tt.name, "rhp/v3.") || strings.Contains(tt.name, "Func") {
+		if needsState[tt.name] || strings.Contains(tt.name, "rhp/v2.RPC") || strings.Contains(tt.name, "rhp/v3.") || strings.Contains(tt.name, "Func") || strings.Contains(tt.name, "#") {
 			continue
 		}
 		bad := 0
